@@ -141,9 +141,11 @@ def build_chain(spec, log, tasklog, router):
         keys = [g["key"] for g in part["groups"]]
         merged["groups"] = [g for g in merged["groups"] if g["key"] not in keys] + part["groups"]
     inst = cls(router=router)
-    if set(inst._groups) != {g["key"] for g in merged["groups"]}:
+    have = {g["key"] for g in merged["groups"] if inst.get_group(g["key"]) is not None}
+    extra = {k for part in spec["chain"] for g in part["groups"] for k in [g["key"]] if inst.get_group(k) is not None} - {g["key"] for g in merged["groups"]}
+    if have != {g["key"] for g in merged["groups"]} or extra:
         raise BrokenDefinition("driver %s built by subclassing has groups %s, its classes define %s" % (
-            spec["name"], sorted(inst._groups), sorted(g["key"] for g in merged["groups"])))
+            spec["name"], sorted(have | extra), sorted(g["key"] for g in merged["groups"])))
     return inst, merged
 
 
